@@ -16,7 +16,7 @@ def check(run):
     quick = run.tier == "quick"
     run.build_harness()
     run.tlc_mc("XState.tla", "MC_XState_kv.cfg" if quick else "MC_XState_kv_thorough.cfg", timeout=3000)
-    kv = '{"p1", "p2", "p3", "p4", "p5", "p6", "p7", "p8", "p9", "p10", "t1"}'
+    kv = '{"p1", "p2", "p3", "p4", "p5", "p6", "p7", "p8", "p9", "p10", "p12", "t1"}'
     plans = [dict(num=110, ops=20, txs=kv, maxb=8)] if quick else [dict(num=900, ops=22, txs=kv, maxb=8), dict(num=300, ops=30, txs=kv, maxb=10)]
     groups = xc.gen(run, plans)
     xc.replay_validate(run, groups)
